@@ -7,6 +7,7 @@ import (
 	"os"
 	"runtime/debug"
 	"strconv"
+	"strings"
 
 	"gverif/internal/load"
 	"gverif/internal/report"
@@ -19,7 +20,11 @@ func main() {
 	repo := flag.String("repo", "/repo", "repository under analysis")
 	verif := flag.String("verif", "/verif", "verification directory (fixtures, known findings; evidence and replay unless -out is given)")
 	out := flag.String("out", "", "directory for evidence/ and replay/ (default: the -verif directory)")
+	sweep := flag.String("sweep", "", "development aid: comma-separated property ids; loads the tree once, runs them in order into -out and stops at the first that fails")
 	flag.Parse()
+	if *sweep != "" {
+		os.Exit(runSweep(strings.Split(*sweep, ","), *tier, *repo, *verif, *out))
+	}
 	if t := os.Getenv("VERIF_TIER"); t == "quick" || t == "thorough" {
 		if !isFlagSet("tier") {
 			*tier = t
@@ -36,6 +41,44 @@ func main() {
 	}
 	code := run(*prop, *tier, *repo, *verif, r)
 	os.Exit(code)
+}
+
+// runSweep: used by scripts/mutation_stage2.sh only (never by a registered command).
+func runSweep(props []string, tier, repo, verif, out string) int {
+	if out == "" {
+		fmt.Fprintln(os.Stderr, "-sweep needs -out (it must not write /verif/evidence)")
+		return 2
+	}
+	p, err := load.Load(repo, true, load.RepoExtra...)
+	if err != nil {
+		fmt.Println("FIRST-FAIL load")
+		return 1
+	}
+	p.UseBaseline(verif + "/anchors.json")
+	load.Current = p
+	for _, prop := range props {
+		rules.ResetCaches()
+		r := report.New(prop, tier, out)
+		r.FindingsDir = verif
+		code := func() (code int) {
+			defer func() {
+				if x := recover(); x != nil {
+					code = 1
+				}
+			}()
+			e := &rules.Env{P: p, R: r, Tier: tier, Verif: verif}
+			if !rules.Run(prop, e) {
+				return 2
+			}
+			return r.Finish()
+		}()
+		if code != 0 {
+			fmt.Println("FIRST-FAIL " + prop)
+			return 1
+		}
+	}
+	fmt.Println("ALL-PASS")
+	return 0
 }
 
 func isFlagSet(name string) bool {
